@@ -69,6 +69,14 @@ def run(ctx):
             continue
         v = A.view(f)
         verdicts = []
+        # a model without LMM constraint (trace-integration CPU) fails the actions of its own action list instead of calling cancel_actions()
+        all_evs = [e for eid in range(len(f['elems'])) for e in v.events_of(eid) if e.eid == eid]
+        own_list = any(el['x'].get('k') == 'Decl' and any(d.get('d', {}).get('n', '').startswith('__range') and d.get('init') is not None and
+                                                           any(n.get('k') == 'Mem' and 'action' in (n.get('d') or {}).get('n', '').lower() for n in ex.walk(d['init'])) for d in el['x'].get('decls', ()))
+                       for el in f['elems'])
+        fails = [e for e in all_evs if e.kind == 'call' and e.q.endswith('::set_state') and e.args and 'FAILED' in repr(e.args[0])]
+        live = set(nm for b in v.blocks if v.cond_atom(b['id']) is not None for nm in ('INITED', 'STARTED', 'IGNORED') if nm in repr(v.cond_atom(b['id'])[0]))
+        own_loop = own_list and bool(fails) and live == {'INITED', 'STARTED', 'IGNORED'}
         for p in v.paths():
             if p.exit in ('noreturn', 'cut'):
                 continue
@@ -85,6 +93,8 @@ def run(ctx):
                 continue
             if base and canc:
                 verdicts.append(('ok', 'Resource::turn_off + cancel_actions'))
+            elif base and own_loop:
+                verdicts.append(('ok', 'Resource::turn_off + every INITED/STARTED/IGNORED action of its own action list set FAILED'))
             elif deleg and not base:
                 verdicts.append(('ok', 'delegates to %s' % ', '.join(ex.pretty(e.obj) for e in deleg)))
             elif base and not canc:
